@@ -213,12 +213,22 @@ func (c Configuration) resolveHigherScopedReferences(i interface{}) error {
 		if _, ok := field.Interface().(GlobalConfiguration); ok {
 			// It's one of our higher level configurations, so we need to pull out a different
 			// subtree from our TOML document and inject it int othis struct.
-			config := initializePtr(field).Interface().(GlobalConfiguration)
+			// TOML can only be unmarshaled through a pointer, so a field that holds the higher scoped
+			// configuration by value is deserialized into a copy that is stored back afterwards.
+			target := initializePtr(field)
+			if field.Kind() != reflect.Ptr {
+				target = reflect.New(field.Type())
+				target.Elem().Set(field)
+			}
+			config := target.Interface().(GlobalConfiguration)
 			err := c.deserializeConfigInto(config, config.namespace())
 			if err != nil {
 				return err
 			}
-			field.Set(reflect.ValueOf(config))
+			if field.Kind() != reflect.Ptr {
+				target = target.Elem()
+			}
+			field.Set(target)
 		} else {
 			// This is just another member of some kind that is not one of our higher level configurations.
 			err := c.resolveHigherScopedReferences(field.Addr().Interface())
